@@ -7,12 +7,15 @@ import (
 	"fmt"
 	"math"
 	"math/big"
+	"os"
+	"path/filepath"
 	"regexp"
 	"strings"
 	"unicode/utf8"
 
 	"github.com/apparentlymart/go-textseg/v15/textseg"
 	"github.com/hashicorp/hcl/v2"
+	"github.com/hashicorp/hcl/v2/hclparse"
 	"github.com/hashicorp/hcl/v2/hclsyntax"
 	hcljson "github.com/hashicorp/hcl/v2/json"
 	"github.com/zclconf/go-cty/cty"
@@ -77,6 +80,8 @@ type oracle struct {
 	seen      map[string]int
 	wd        *watchdog
 	failCount int
+	tmpDir    string
+	fileN     int
 }
 
 // guard is cx.Guard with the panic failure routed through o.fail (so that it gets shrunk).
@@ -292,6 +297,9 @@ func (o *oracle) check(src []byte, op docOpts) bool {
 				Input: in, Impl: lib.Trunc(fdiags.Error(), 400)})
 		}
 	}
+	// (1b) the entry points that read a file: same bytes, same verdict as json.Parse on the buffer
+	o.fileRoute(src, fileOK, in)
+
 	if !refOK {
 		return len(src) > 1
 	}
@@ -751,4 +759,58 @@ func diffKind(got, want cty.Value, t *jv) string {
 		}
 	}
 	return [...]string{"null", "bool", "number", "string", "array", "object"}[t.K]
+}
+
+// fileRoute: json.ParseFile and hclparse.Parser.ParseJSONFile read the bytes from a file and must then behave
+// exactly like json.Parse on those bytes (acceptance; no trimming, no byte-order-mark handling, no
+// re-encoding).  Run on one input in eight, and on every input that has a byte order mark near its start.
+func (o *oracle) fileRoute(src []byte, bufOK bool, in string) {
+	o.fileN++
+	bomNear := bytes.Contains(src[:minInt(len(src), 8)], []byte("\xef\xbb\xbf"))
+	if o.shrinking || (!bomNear && o.fileN%8 != 0) || len(src) > 1<<20 {
+		return
+	}
+	if o.tmpDir == "" {
+		d, err := os.MkdirTemp("", "hx-c13-")
+		if err != nil {
+			return
+		}
+		o.tmpDir = d
+	}
+	path := filepath.Join(o.tmpDir, "doc.json")
+	if err := os.WriteFile(path, src, 0o600); err != nil {
+		return
+	}
+	var d1, d2 hcl.Diagnostics
+	if !o.guard("parse-file-from-disk", func() {
+		_, d1 = hcljson.ParseFile(path)
+		_, d2 = hclparse.NewParser().ParseJSONFile(path)
+	}) {
+		return
+	}
+	o.cx.Res.Count("file-route")
+	for _, x := range []struct {
+		name string
+		ok   bool
+		d    hcl.Diagnostics
+	}{{"json.ParseFile", !d1.HasErrors(), d1}, {"hclparse.ParseJSONFile", !d2.HasErrors(), d2}} {
+		if x.ok != bufOK {
+			key := "parse-file-route:rejects-what-parse-accepts"
+			if x.ok {
+				key = "parse-file-route:accepts-what-parse-rejects"
+			}
+			if bomNear {
+				key += ":byte-order-mark"
+			}
+			o.fail(lib.Failure{Kind: "oracle", Key: key, Desc: fmt.Sprintf("%s on a file accepts=%v, json.Parse on the same bytes accepts=%v", x.name, x.ok, bufOK), Input: in, Impl: lib.Trunc(x.d.Error(), 300)})
+			return
+		}
+	}
+}
+
+func minInt(a, b int) int {
+	if a < b {
+		return a
+	}
+	return b
 }
